@@ -230,8 +230,8 @@ def make_model(settings, rng, evaluator="rbf", mode="SEP", version=1, nkernel=1,
         fl = make_feature_list(settings, rng)
         bounds = fl.bounds_list
         ev = evaluator
-        if mode == "POL" and evaluator in ("rbf", "kernel"):
-            ev = "spinrbf"
+        if mode == "POL":
+            ev = "spinrbf"  # the only evaluator that accepts the (2, nsamp, nfeat) POL layout
         fevals = _make_fevals(ev, fl.nfeat, rng, mode, bounds)
         if version == 1:
             if baselines is None:
